@@ -26,7 +26,8 @@ Segs == <<
   "$(ls, -l)", "![a b]", "@(p, q)", "x y z", "1 +", "..", "*args", "**kw", "k=v", "f(1)(2)",               \* 11-20
   "[(,)]", "(a, # c\n b)", "(a,\n b)", "'''t,\nu'''", "f'{a},{b}'", "f'{v, w}'", "f'a,b'", "f'{k}){v}'", "g!(h, i)", "~u00e9~", \* 21-30
   "not in", "->", "${u}", "`*.py`", "p'/q'", "a ? b", "!", "0x1F", "{,}", "'\\''",                         \* 31-40
-  "~ufb01~le", "~u00b5~s", "~uff41~~uff42~", "x~u00b2~", "~u2160~v", "K~u212a~"                                        \* 41-46 compatibility characters (NFKC would change them)
+  "~ufb01~le", "~u00b5~s", "~uff41~~uff42~", "x~u00b2~", "~u2160~v", "K~u212a~",                                       \* 41-46 compatibility characters (NFKC would change them)
+  "f\"\"\"abc\n{x}\"\"\"", "f'''a{b}\n{c}{d}\n'''", "f'a\\\n{x}'", "f\"\"\"{x:>{w}}\n{y!r}, z\"\"\""                      \* 47-50 multi-row f-strings: a field opens a row
 >>
 Blanks == {"", " "}
 
@@ -74,7 +75,11 @@ ProcCases == { [kind |-> "proc", src |-> Hosts[h][1] \o Opens[o][1] \o "echo!" \
 
 \* ---------------------------------------------------------------- with macro
 \* a block line: <<extra indentation levels, text>>; text "" = blank line
-LineTexts == <<"a b c", "d = [1, 2]", "", "# c", "if q:", "$(ls) x", "'s, t'", "else: (", "~u00e9~", "~ufb01~le ~u00b5~s">>
+\* 11: a bracketed statement whose second row starts in column 0 (free inside brackets); level 9 = a comment written LEFT of
+\* the block, at the indentation of the with statement itself.  "Dedented" means: the margin common to all non-blank rows is
+\* removed - such rows make that margin shorter than the block's indentation
+LineTexts == <<"a b c", "d = [1, 2]", "", "# c", "if q:", "$(ls) x", "'s, t'", "else: (", "~u00e9~", "~ufb01~le ~u00b5~s", "e = [1,\n2]">>
+Left == 9
 Units == <<"    ", "\t", "  ">>
 Outer == <<"", "if c:\n">>     \* the with statement at top level, or inside an if block
 VARIABLES lines, unit, outer
@@ -82,8 +87,9 @@ wvars == <<lines, unit, outer, done, fol>>
 RECURSIVE Ind(_, _)
 Ind(n, u) == IF n = 0 THEN "" ELSE u \o Ind(n - 1, u)
 Balanced(t) == t \notin {"else: ("}   \* texts with an unclosed bracket would swallow the following line
-LineSrc(base, ln, u) == IF ln[2] = "" THEN "\n" ELSE base \o Ind(ln[1], u) \o ln[2] \o "\n"
-LineWant(ln, u) == IF ln[2] = "" THEN "\n" ELSE Ind(ln[1], u) \o ln[2] \o "\n"
+LineSrc(base, o, ln, u) == IF ln[2] = "" THEN "\n" ELSE IF ln[1] = Left THEN o \o ln[2] \o "\n" ELSE base \o Ind(ln[1], u) \o ln[2] \o "\n"
+\* keep: what is left of the block's indentation once the common margin is removed; okeep: the same for a row written at o
+LineWant(ln, u, keep, okeep) == IF ln[2] = "" THEN "\n" ELSE IF ln[1] = Left THEN okeep \o ln[2] \o "\n" ELSE keep \o Ind(ln[1], u) \o ln[2] \o "\n"
 IsCode(ln) == ln[2] # "" /\ ln[2] # "# c"
 RECURSIVE LastCodeLevel(_)
 LastCodeLevel(ls) == IF ls = <<>> THEN 0 ELSE IF IsCode(ls[Len(ls)]) THEN ls[Len(ls)][1] ELSE LastCodeLevel(SubSeq(ls, 1, Len(ls) - 1))
@@ -100,15 +106,29 @@ WithNext ==
              /\ ((IsCode(<<n, LineTexts[t]>>) /\ ~(\E i \in 1..Len(lines) : IsCode(lines[i]))) => n = 0)
              /\ lines' = Append(lines, <<IF LineTexts[t] = "" THEN 0 ELSE n, LineTexts[t]>>)
         /\ UNCHANGED <<done, unit, outer, fol>>
+     \/ /\ Len(lines) < MaxLines /\ (\E i \in 1..Len(lines) : IsCode(lines[i]))        \* a comment left of the block, in its middle
+        /\ lines[Len(lines)][1] # Left
+        /\ lines' = Append(lines, <<Left, "# c">>)
+        /\ UNCHANGED <<done, unit, outer, fol>>
      \/ /\ lines # <<>> /\ lines[Len(lines)][2] # "" /\ (\E i \in 1..Len(lines) : IsCode(lines[i]))      \* a block holds at least one statement
+        \* (what follows the last statement left of the block is not the block's, nor are the comment rows after it)
+        /\ \A i \in 1..Len(lines) : lines[i][1] = Left => \E j \in (i + 1)..Len(lines) : IsCode(lines[j])
         /\ done' = TRUE /\ UNCHANGED <<lines, unit, outer, fol>>
 WithSrc ==
   LET u == Units[unit]
       o == IF outer = 1 THEN "" ELSE u          \* indentation of the with statement itself
       base == o \o u
-  IN Outer[outer] \o o \o "with! ctx:\n" \o Cat([i \in 1..Len(lines) |-> LineSrc(base, lines[i], u)])
+  IN Outer[outer] \o o \o "with! ctx:\n" \o Cat([i \in 1..Len(lines) |-> LineSrc(base, o, lines[i], u)])
        \o (IF Followers[fol] = "" THEN "" ELSE o \o Followers[fol])
-WithCase == [kind |-> "with", src |-> WithSrc, want |-> <<Cat([i \in 1..Len(lines) |-> LineWant(lines[i], Units[unit])])>>,
+WithWant ==
+  LET u == Units[unit]
+      o == IF outer = 1 THEN "" ELSE u
+      col0 == \E i \in 1..Len(lines) : lines[i][2] = "e = [1,\n2]"      \* a row in column 0: nothing is common
+      left == \E i \in 1..Len(lines) : lines[i][1] = Left                \* a row at o: o is common
+      keep == IF col0 THEN o \o u ELSE IF left THEN u ELSE ""
+      okeep == IF col0 THEN o ELSE ""
+  IN Cat([i \in 1..Len(lines) |-> LineWant(lines[i], u, keep, okeep)])
+WithCase == [kind |-> "with", src |-> WithSrc, want |-> <<WithWant>>,
              follower |-> Followers[fol], host |-> outer]
 OneLiners == { [kind |-> "with1", src |-> "with! ctx:" \o t \o "\n" \o Followers[f], want |-> <<t \o "\n">>, follower |-> Followers[f], host |-> 1]
                : t \in {" one liner  ", "x", " a; b ", " $(ls) 'q'  # c", " [1, 2] if z"}, f \in {1, 2, 5, 7} }
